@@ -291,7 +291,7 @@ func checkDowngrade(r *Report, p *Prog) {
 	n := 0
 	judge := func(fn *ssa.Function, fcx *FuncCtx, ap string, at *ssa.BasicBlock) {
 		n++
-		cnd := fcx.Cond(at)
+		cnd := fcx.AbsCond(at)
 		// what was already decided when the scan started is not a condition of the scan
 		base := B2.True
 		if hs := loopHeadersOf(at); len(hs) > 0 && inlineSel {
@@ -319,14 +319,84 @@ func checkDowngrade(r *Report, p *Prog) {
 			if strings.Contains(j, ".Use") || strings.Contains(j, "X509Certificates") || strings.HasPrefix(ai.Args[0], "phi#") || strings.HasPrefix(ai.Args[0], "p:") && fn != sel {
 				continue
 			}
+			// "nothing chosen so far" (the result of an earlier scan is empty) is the fallback's own condition
+			if ai.Kind == "empty" && len(ai.Vals) > 0 && isCertString(fs, ai.Vals[0], 0, map[ssa.Value]bool{}) {
+				continue
+			}
 			extra = append(extra, name)
 		}
 		cons := fmt.Sprintf("%s: certificate taken from a key descriptor [%s]", p.FnName(fn), ap)
 		r.Check(len(extra) == 0, rule, cons, p.InstrPos(at.Instrs[len(at.Instrs)-1]), "guarded only by use and certificate presence", "a descriptor that carries an encryption certificate can be skipped depending on "+strings.Join(extra, ", ")+": the response then silently falls back to cleartext")
+		// ... and it is taken only when it is not empty (an empty certificate must never become, or replace, the choice:
+		// a later descriptor with a usable certificate would be lost and the response would fall back to cleartext), from
+		// a descriptor whose use is "encryption" or unspecified
+		impliedLit := func(lit string, positive bool) bool {
+			for _, name := range B2.Support(cnd) {
+				ai := a2.Atoms[name]
+				if ai == nil {
+					continue
+				}
+				if name == lit {
+					if positive && B2.Implies(cnd, B2.Var(name)) || !positive && B2.Implies(cnd, B2.Not(B2.Var(name))) {
+						return true
+					}
+				}
+				// the same literal inside the condition of a search over the descriptors ("some descriptor satisfies ...")
+				if ai.Kind == "exists" && B2.Implies(cnd, B2.Var(name)) {
+					want := lit
+					if !positive {
+						want = "!" + lit
+					}
+					for _, part := range strings.Split(strings.TrimSuffix(strings.TrimPrefix(name, "exists{"), "}"), " & ") {
+						if part == want {
+							return true
+						}
+					}
+				}
+			}
+			return false
+		}
+		nonEmpty := impliedLit("empty("+ap+")", false)
+		c2 := fmt.Sprintf("%s: an empty certificate is never chosen [%s]", p.FnName(fn), ap)
+		r.Check(nonEmpty, rule, c2, p.InstrPos(at.Instrs[len(at.Instrs)-1]), "taken under Data != \"\"", "the certificate string is taken without checking that it is not empty: an empty <X509Certificate> in one descriptor hides a usable certificate in a later one, the selector reports 'no encryption key' and the assertion leaves in clear")
+		useAP := strings.TrimSuffix(ap, ".KeyInfo.X509Data.X509Certificates[0].Data") + ".Use"
+		if i := strings.Index(ap, ".KeyInfo."); i >= 0 {
+			useAP = ap[:i] + ".Use"
+		}
+		okUse := impliedLit("empty("+useAP+")", true)
+		for _, name := range B2.Support(cnd) {
+			ai := a2.Atoms[name]
+			if ai != nil && ai.Kind == "eq" && strings.Contains(name, useAP) && strings.Contains(name, `c:"encryption"`) && impliedLit(name, true) {
+				okUse = true
+			}
+			if ai != nil && ai.Kind == "exists" && B2.Implies(cnd, B2.Var(name)) && strings.Contains(name, useAP) && strings.Contains(name, `c:"encryption"`) && !strings.Contains(name, "!eq(") {
+				okUse = true
+			}
+		}
+		c3 := fmt.Sprintf("%s: certificate taken only from an encryption or unspecified-use descriptor [%s]", p.FnName(fn), ap)
+		r.Check(okUse, rule, c3, p.InstrPos(at.Instrs[len(at.Instrs)-1]), "under use == \"encryption\" or use == \"\"", "a certificate is taken from a descriptor whatever its use: a signing-only key becomes the encryption key (for an SP whose signing key cannot decrypt, the response fails or is unreadable)")
 	}
-	scanFns := append([]*ssa.Function{sel}, stringHelpersOf(p, sel)...)
-	for _, fn := range scanFns {
-		fcx := a2.Ctx(fn)
+	type scanUnit struct {
+		fn  *ssa.Function
+		fcx *FuncCtx
+	}
+	scan := []scanUnit{{sel, a2.Ctx(sel)}}
+	// a helper that scans on the selector's behalf is read at each of its call sites (a predicate it is handed is then the
+	// literal the selector passes)
+	helperSet := map[*ssa.Function]bool{}
+	for _, h := range stringHelpersOf(p, sel) {
+		helperSet[h] = true
+	}
+	fs.ensureConds()
+	for _, b := range sel.Blocks {
+		for _, in := range b.Instrs {
+			if c, ok := in.(*ssa.Call); ok && c.Call.StaticCallee() != nil && helperSet[c.Call.StaticCallee()] {
+				scan = append(scan, scanUnit{c.Call.StaticCallee(), fs.inlineCtx(c.Call.StaticCallee(), c.Call.Args, c)})
+			}
+		}
+	}
+	for _, su := range scan {
+		fn, fcx := su.fn, su.fcx
 		fcx.ensureConds()
 		r.Fn(p.FnName(fn))
 		for _, b := range fn.Blocks {
